@@ -17,7 +17,7 @@ def gen(c, binary):
 
 def run(c):
     c.rule = ("one case = a fresh agent built from parts (1-4 shards, pre-filled mapping cache), one random metric description "
-              "(raw/raw64/named/draft tags, percentiles, resolution 1/5/15/60, fixed/by-id/invalid sharding, optional second shard) and "
+              "(raw/raw64/named/draft tags, percentiles, resolution 1/5/15/60, fixed/by-id/tags-hash/invalid sharding, optional second shard) and "
               "1-6 random events (valid exact-domain payloads; injected NaN/±Inf/±MaxFloat32 neighbours/negative numbers at random "
               "positions of counter, values, histogram values and weights; both-set; empty; unknown/draft/legacy/duplicate/garbage tag "
               "names; unmapped/padded/invalid-UTF-8/corrupted/raw tag values; not-found/disabled metric; timestamps around now+3) run "
@@ -31,13 +31,15 @@ def run(c):
         "parsers and the mapping table are inputs of the model, observed with the real functions on copies of the bytes (C11/C20 own them)",
         "arithmetic is exact (Rat): the generator stays in float64's exact domain; rounding outside it is not decided",
         "string-top capacity is never reached (< 100 distinct values per row), host tag values, TDigest contents (only its existence) "
-        "and the bucket slot of a row are not observed; sharding by tags hash is not exercised",
+        "and the bucket slot of a row are not observed",
+        "sharding by tags hash: xxh3 of the mapped key is external; the harness passes the shard the real sharding.Shard returns for "
+        "the key produced by the real Map (Event.hashShard) and the model treats it as a fixed shard (effCfg)",
         "HLL item count = number of distinct hashes (few small integers per row)",
     ]
     binary = c.go_build(HARNESS)
     if binary:
         gen(c, binary)
-    c.prove("SH.Props.C12", extra_files=["SH/Model/Ingest.lean", "SH/Gen/C12.lean"])
+    c.prove("SH.Props.C12", extra_files=["SH/Model/Ingest.lean", "SH/Lemmas/IngestStore.lean", "SH/Gen/C12.lean"])
     drv = c.driver(DRIVER)
     if binary and drv:
         rc, out = c.go_run(binary, [f"-n={c.n(4000, 40000)}"])
@@ -57,24 +59,36 @@ def run(c):
 
 META = {
     "level": "proof",
-    "technique": ("Lean 4 theorems (all events, all stores, all event sequences) over an executable model of Agent.Map + "
+    "technique": ("Lean 4 theorems (all events, all stores, all event sequences, exact Rat) over an executable model of Agent.Map + "
                   "Agent.ApplyMetric + shard/bucket weighting, tied to /repo by differential replay of generated events on the real agent "
                   "and by a direct exact-arithmetic oracle on the real rows"),
-    "text": ("Kernel-checked: the verdict is 'accepted' iff the metric is found/enabled and shardable, every tag is valid and "
-             "counter/values/histogram are finite, within ±MaxFloat32, counters ≥ 0, not both values and uniques, not empty "
-             "(verdict_zero_iff); a rejected event makes ApplyMetric add exactly one ingestion-status record whose status is the "
-             "verdict (plus its copy for a configured second shard) and changes no other row of any store (rejected_effects, "
-             "rejected_record_count, rejected_contributes_nothing), for every event sequence the non-status rows are those of the "
-             "accepted events alone (rejected_invisible); the recorded status names a defect the event really has, first invalid tag "
-             "wins (status_has_witness, validate*_meaning, tag_status_first_invalid); an accepted event adds one ok record, warnings "
-             "and its contribution, with Δcount = #values+Σweights when the counter is absent, Δcount = counter otherwise and "
-             "Δsum/Δcount = Σv·w/total always (counter_semantics, uniques_as_values). The model is replayed against the real "
-             "agent row by row; status codes, limits and built-in metric ids are regenerated from the working tree."),
-    "note": ("Trusted: Lean kernel; the correspondence on generated cases (quick 4000, thorough 40000 cases of 1-6 events); the harness' "
-             "emulation of worker.fillTime/fillMetricMeta; helper functions treated as inputs (tag lookup, string normalisation, raw "
-             "parsers, mapping cache). Exact arithmetic only. The theorem counter_semantics is stated on the row update function "
-             "(MultiValue.ApplyValues) and linked to ApplyMetric by values_effect_is_weighting; it is not lifted through the "
-             "store lookup. Observed but outside the property: for a metric with a second shard the string-top tag is lost in the "
-             "second shard (the first shard's call removes it from the shared key)."),
+    "text": ("Kernel-checked. (1) verdict_zero_iff: 'accepted' iff metric found/enabled and shardable, every tag valid, counter/values/"
+             "histogram finite within ±MaxFloat32, counters ≥ 0, not both values and uniques, not empty. (2) Rejected: ApplyMetric is exactly "
+             "one status record carrying the verdict (+ its copy for a configured second shard) and no row of another metric changes, for any "
+             "store (rejected_effects, rejected_record_count, rejected_contributes_nothing); at store level the count read at every address "
+             "grows by the number of those records written to it, i.e. by 1 at one row of the right shard and 0 elsewhere "
+             "(rejected_status_store, rejected_primary_record). (3) The status names a real defect, first invalid tag wins "
+             "(status_has_witness, validate*_meaning, tag_status_first_invalid). (4) Accepted: one ok record, warnings, contribution "
+             "(accepted_effects); the ok row grows by exactly 1 and no error-status row changes (accepted_ok_record, "
+             "accepted_no_error_status). (5) Weighting lifted through the store lookup: for one event and for EVERY event list, every row "
+             "address of a user metric reads old count/sum + Σ rowDelta, where rowDelta is 0 for rejected events and for accepted ones "
+             "(counter if present else #values+Σweights / #uniques, Σv·w·count/total) at the event's row of the metric's shard and once more "
+             "at the second shard's copy (applyEvent_row, applyAll_row, applyAll_row_from_empty; counter_semantics, uniques_as_values for "
+             "Δsum/Δcount = Σv·w/total); counts never go negative (applyEvent_NN). (6) For every event list the error-status rows count "
+             "exactly the rejected events, once each, and the user rows equal those of the accepted events alone (applyAll_error_status, "
+             "rejected_invisible). (7) All sequence theorems also for tags-hash sharding with the hash as input (applyAllH_row, "
+             "applyAllH_error_status, rejected_invisible_H, effCfg_hash_shard). (8) Boundary of 'not empty': a histogram whose weights are all "
+             "0 is accepted; with an absent counter it changes no row, with a counter > 0 it creates an empty row "
+             "(zeroWeight_counter_absent/present). (9) addr2_eq: the second shard's copy goes to the Tail of the row without string top."),
+    "note": ("Trusted: Lean kernel; the correspondence on generated cases (quick 4000, thorough 40000 cases of 1-6 events, all sharding "
+             "strategies); the harness' emulation of worker.fillTime/fillMetricMeta; helper functions treated as inputs (tag lookup, string "
+             "normalisation, raw parsers, mapping cache, xxh3 of the key). Exact arithmetic only (no float rounding). Store-level theorems "
+             "read rows through getMV (first match, as storeUpd writes) and assume non-negative counts in the initial store (true of the empty "
+             "store and preserved by every event). Still partial: min/max/sum-of-squares/unique-set/TDigest flag are modelled and compared by "
+             "the correspondence but have no lifted theorem; warning and clamped-future status rows are counted only per event "
+             "(accepted_status_store), not summed over sequences. Observation outside C12 and C10 as stated (replay: "
+             "`verif-c12 -mode=shard2demo` on the real code; Lean: addr2_eq): with ShardFixedKey2 the first shard's call strips the "
+             "string-top tag from the shared key, so the second shard files the same event under the Tail row — the copy still "
+             "contributes the right count and sum to the right metric, only under a different row."),
     "design_ref": "DESIGN.md §6 C12",
 }
